@@ -56,6 +56,12 @@ int prop_dispatch(Run& run) {
             pcase.max_defs = 6;
             run.count("big-registries");
         }
+        if (!pcase.big && rng.chance(1, thorough ? 20 : 40)) {
+            pcase.many_defs = true; // also for C02 and C17: the report over masks wider than a word
+            pcase.min_classes = std::max(pcase.min_classes, 8);
+            pcase.max_methods = std::max(pcase.max_methods, 2);
+            run.count("registries-with-a-method-of>64-definitions");
+        }
         gen_graph(rng, pcase, base);
         Oracle o(base);
         gen_methods(rng, pcase, base, o);
